@@ -1,5 +1,6 @@
 import GrinVerif.Drv.Common
 import GrinVerif.Model.Conc
+import GrinVerif.Model.TxCount
 import GrinVerif.Gen.Locks
 /-! Driver glue for the `conc` domain (C17). The tie of this property to the code is mostly the
 regenerated lock table; the lines handled here connect the harness to that table:
@@ -16,6 +17,12 @@ regenerated lock table; the lines handled here connect the harness to that table
   the lock semantics assumed by the model (non re-entrant, waiting writer blocks readers) are the
   real ones;
 * `conc tablecheck => ok`: names the ops violating the decided table obligations, if any;
+* `conc txcount threads=<n> reads=<k> seed=<s> => completed|stalled…`: the watchdog run on the
+  store's open-transaction counter (n threads × k short read transactions concurrently with a
+  writer, all joined, then a writer that crosses the resize threshold twice): the model
+  (`Model/TxCount.lean`, atomic alphabet, a seeded interleaving of n × min(k, 48) enter/leave pairs
+  with a resize falling due) predicts `completed` — the counter is back to 0 and the resize runs
+  (`count_eq_open`); a stall of the real store is a `#ORACLE-FAIL` of the harness and a DIFF here;
 * the final (head, unspent set) of a concurrent run is compared by the `chain` domain
   (`chain obs <twin> => …`), not here. -/
 namespace GV.Drv.ConcD
@@ -78,6 +85,13 @@ def handle (st : St) (args : List String) (impl : String) : St × Verdict :=
       | some progs => ({ st with sims := st.sims + 1 }, cmpModel (simAll progs seed) impl)
       | none => (st, .diff "op-not-in-lock-table")
     | _, _ => (st, .unknown)
+  | "txcount" :: rest =>
+    match (kvArg rest "threads").bind String.toNat?, (kvArg rest "reads").bind String.toNat?,
+          (kvArg rest "seed").bind String.toNat? with
+    | some n, some k, some seed =>
+      if n = 0 || k = 0 then (st, .unknown)
+      else (st, cmpModel (GV.TxCount.predict n (min k 48) seed) impl)
+    | _, _, _ => (st, .unknown)
   | _ => (st, .unknown)
 
 end GV.Drv.ConcD
